@@ -4,6 +4,7 @@ import PqlModel.Props.C01LexRender
 import PqlModel.Props.C01Sem
 import PqlModel.Props.C06Operand
 import PqlModel.Props.C05ParseStatement
+import PqlModel.Props.C01Templates
 #print axioms Pql.C01.C01_parens_write
 #print axioms Pql.C01.C01_parens_wrap
 #print axioms Pql.C01.C01_unparen_write
@@ -28,3 +29,15 @@ import PqlModel.Props.C05ParseStatement
 #print axioms Pql.C01.C01_parse_roundtrip_anyfuel
 #print axioms Pql.C01.C01_operand_is_unit
 #print axioms Pql.C01.C01_counterexample_Not
+#print axioms Pql.C01T.C01_template_keys
+#print axioms Pql.C01T.C01_writers_have_templates
+#print axioms Pql.C01T.C01_builtin_templates
+#print axioms Pql.C01T.C01_ne_template
+#print axioms Pql.C01T.C01_cieq_template
+#print axioms Pql.C01T.C01_cine_template
+#print axioms Pql.C01T.C01_eq_template
+#print axioms Pql.C01T.C01_plain_op_template
+#print axioms Pql.C01T.C01_index_template
+#print axioms Pql.C01T.C01_in_template
+#print axioms Pql.C01T.C01_call_default_template
+#print axioms Pql.C01T.C01_call_known_template
